@@ -94,7 +94,7 @@ def run_import(case):
                 j = st.randint(0, len(out) - 1, 'dj')
                 d = copy.deepcopy(out[j])
                 d['id'] = str(uuid.UUID(int=(d['timestamp'] // 60_000) + (1 << 70)))
-                out.insert(st.randint(0, len(out), 'di'), d)
+                out.insert(st.randint(1, len(out), 'di'), d)     # (never in front: the loop reads candles[0] as "the first the exchange has")
                 counters['fault_duplicated'] += 1
             if len(out) > 2 and st.u('shuf') < case['p_shuffle']:
                 first = out[0]
